@@ -41,6 +41,16 @@ theorem keepInv_decompose : KeepInv .decompose KeepsNulls :=
 theorem keepInv_altAlter : KeepInv .altAlter KeepsNulls :=
   ⟨fun o h => by simp [Kind.dropsNil, h.1, h.2], fun _ h => h, fun _ h => h⟩
 
+/-! ## the copy / in-place table against the source -/
+
+/-- For every conversion and both of its container arms, the syntactic classification extracted
+from the Go source (does the arm call `make` / use a composite literal, does it cast through
+unsafe.Pointer or assign `v[i] = …` into its argument) equals the model's `Kind.inPlace`. A tripwire,
+not a semantics: an arm that builds a container and still leaks its argument is for the
+mutate-after-copy experiments and the aliasing correspondence of the run to find. -/
+theorem inPlace_matches_source : ∀ k : Kind, k.sourceArms.all k.armAgrees = true := by
+  intro k; cases k <;> decide
+
 /-! ## value preservation -/
 
 /-- composition of a first conversion (any kind, described by its result) with a copying one -/
@@ -118,9 +128,11 @@ theorem altAlter_value (n : Nat) (opt : Opt) (H : Heap) (r : Ref) (t : T) (S : L
 out. The partial theorems hold for whatever the flow is; whether the full statement holds is decided
 by `genAlter_full_status` below. -/
 
-/-- a member of `t` is lost by `GenAlter` under `opt` (today: a null member of an object below a
-slice, because the slice clause calls `GenAlter(m)` without options and the package default omits
-nulls) -/
+/-- a member of `t` is lost by `GenAlter` under `opt`. With the code as first examined (the slice
+clause called `GenAlter(m)` without options and the package default omits nulls) this was: a null
+member of an object below a slice. With the code as it is (`GenAlter(m, opt)`, repository commit
+"GenAlter passes its options on to the elements of a slice") it never holds for null-keeping options:
+`genAlter_full`. -/
 def GenAlterLoses (opt : Opt) (t : T) : Prop := t.keeps .genAlter opt = false
 
 /-- `GenAlter(v).Alter() = v` unless `GenAlterLoses` -/
@@ -168,8 +180,10 @@ example : denote 3 witnessHeap witnessRoot = some witnessTree := rfl
 example : owns 3 witnessHeap witnessRoot = some [2, 0, 1] := rfl
 
 /-- The full statement holds iff nulls survive the option flow of the slice clause. Exactly one of
-the two cases typechecks for a given source tree: today the first (the witness comes back as
-`[{},{}]`); once `GenAlter(m, opt)` is written in the slice clause, the second. -/
+the two cases typechecks for a given source tree: with `GenAlter(m)` in the slice clause the first
+(the witness comes back as `[{},{}]`); with `GenAlter(m, opt)` — the code as it is — the second. The
+disjunction is kept so that the history of the finding stays checkable against either tree;
+`genAlter_full` below states the present situation outright. -/
 theorem genAlter_full_status :
     (GenAlterLoses ⟨false, false⟩ witnessTree ∧ ¬ C18_genAlter_full) ∨
     (KeepInv .genAlter (fun o => o.omitNil = false) ∧ C18_genAlter_full) := by
@@ -188,6 +202,25 @@ theorem genAlter_full_status :
     exact Or.inr ⟨inv, fun n opt H r t S ho hd hS hnd hs =>
       genAlter_nodeAlter_partial n opt H r t S ho hd hS hnd hs
         (by simp [GenAlterLoses, keeps_of_inv inv t opt ho.1])⟩
+
+/-- the option flow of `GenAlter` as the source has it now keeps null-keeping options null-keeping
+(a regression tripwire over the patched slice clause: it stops checking if `opt` is dropped again) -/
+theorem keepInv_genAlter : KeepInv .genAlter (fun o => o.omitNil = false) :=
+  ⟨fun o h => by simpa [Kind.dropsNil] using h,
+   fun o h => by simpa [Kind.arrOpt, genAlterArrPassesOpt] using h,
+   fun o h => by simpa [Kind.mapOpt, genAlterMapPassesOpt] using h⟩
+
+/-- `GenAlter(v).Alter() = v`: the full statement, for the code as it is -/
+theorem genAlter_full : C18_genAlter_full := fun n opt H r t S ho hd hS hnd hs =>
+  genAlter_nodeAlter_partial n opt H r t S ho hd hS hnd hs
+    (by simp [GenAlterLoses, keeps_of_inv keepInv_genAlter t opt ho.1])
+
+/-- `Simplify(GenAlter(v)) = v`: the full statement, for the code as it is -/
+theorem genAlter_simplify (n : Nat) (opt : Opt) (H : Heap) (r : Ref) (t : T) (S : List Addr)
+    (ho : KeepsNulls opt) (hd : denote n H r = some t) (hS : owns n H r = some S) (hnd : S.Nodup)
+    (hs : t.Simple) : roundTrip .genAlter .simplify n opt H r = some t :=
+  genAlter_simplify_partial n opt H r t S ho hd hS hnd hs
+    (by simp [GenAlterLoses, keeps_of_inv keepInv_genAlter t opt ho.1])
 
 /-- the in-place variants return the cell they were given (they alias by design) -/
 theorem genAlter_same_cell (n : Nat) (opt : Opt) (H : Heap) (r : Ref) (t : T) (S : List Addr)
